@@ -209,8 +209,22 @@ var images = func() []image {
 		}
 		return m
 	}
+	// many rules: the loader pages through the storage 100 keys at a time
+	many := func(n int) map[string]string {
+		m := kv(storeKey(def), ruleJSON(def))
+		for i := 0; i < n-1; i++ {
+			r := rspec{g: "m", id: fmt.Sprintf("r%03d", i), role: "learner", count: 1}
+			m[storeKey(r)] = ruleJSON(r)
+		}
+		return m
+	}
 	return []image{
 		{"empty", kv()},
+		{"99 rules", many(99)},
+		{"100 rules", many(100)},
+		{"101 rules", many(101)},
+		{"200 rules", many(200)},
+		{"250 rules", many(250)},
 		{"canonical", kv(storeKey(def), ruleJSON(def), storeKey(a1), ruleJSON(a1))},
 		{"rule under a legacy key", kv(storeKey(def), ruleJSON(def), "rules/g1-a", ruleJSON(a1))},
 		{"rule under a key sorting first", kv(storeKey(def), ruleJSON(def), "rules/00", ruleJSON(a1))},
